@@ -8,5 +8,15 @@ claim("C06", "path-prefix typestate (forward dataflow over the SSA CFG counting 
       "Decides on every CFG path of the field resolver, list resolver and error adder that each error receives the response-key prefix exactly once per field level and the list-index prefix exactly once per element with the SSA value that indexed the source, that grouped errors are flattened member by member and Extensions carried, and that no other kind of path segment is added anywhere. Four genuine defects are listed as known findings (value kept next to its error in three resolver arms; 'fragment at L:C' path segment), all pinned by existing tests.",
       TB)
 
-for p in ["C01","C02","C03","C04","C05","C07","C08","C10","C11","C12","C13","C14","C15","C16","C17","C18","C19","C20"]:
+claim("C01", "SSA dominance / phi-source rules on the entry point, response-map flow (who-may-write) over the call graph, loop-shape rules (induction, single dominating append) and switch-exhaustiveness against go/types implementer sets",
+      "Decides the operation-choice clause completely (sources of the operation value, len==1 fallback guard, no resolver-reaching call without an operation) and structural necessary conditions of selection semantics: response maps written only by the field resolver under alias-or-name, every list loop mirrors the source in order with exactly one element per iteration, selection/type switches exhaustive, __typename from the container type.",
+      TB)
+claim("C04", "SSA must-pass-through (dominance by len(errors)==0 of the producing call), phi-leaf provenance of returned/stored values, range-guard analysis of narrowing Convert instructions, structural rules on the input-object coercer",
+      "Decides that no application resolver (interface, root or reflected) can be invoked with an argument map other than the one the argument builder produced without errors, that every value leaving the argument substitution or entering the operation's variable map is the declared type's CoerceIn result, that every narrowing numeric conversion in input coercers is range-guarded, and the required/undeclared/default handling of arguments and input objects. Six genuine defects found by these rules were repaired (fix: commits).",
+      TB)
+claim("C10", "SSA dominance (fd != nil before every resolver invocation), kind-set comparison between dispatcher / field lookup, guard analysis of argument stores and reports, call-graph reachability of Validate methods, interprocedural *Ref-rejection check for type conditions",
+      "Decides that undefined fields, undeclared arguments (every container kind), missing required arguments, unknown/misplaced directives on every request node kind and undefined inline type conditions cannot reach a resolver without an error being recorded. One genuine defect (named fragment on an undefined type accepted) is pinned by an existing test and listed as known finding; two were repaired.",
+      TB)
+
+for p in ["C02","C03","C05","C07","C08","C10","C11","C12","C13","C14","C15","C16","C17","C18","C19","C20"]:
     na(p, "rules designed (DESIGN.md section 4) but not yet implemented in the checker at this commit; will be claimed once its rule set runs clean")
